@@ -82,10 +82,21 @@ func (e *Engine) exec(c *Config, f *Frame, ins ssa.Instruction, rest func(c *Con
 		cp := e.get(f, x.Cap).(*Term)
 		ln = toW(ln, 64, isSigned(x.Len.Type()))
 		cp = toW(cp, 64, isSigned(x.Cap.Type()))
+		var n int
 		if !cp.IsConst() {
-			inconclusive("MakeSlice with symbolic capacity at %s (use make([]T, MAX)[:n])", e.posOf(c))
+			// symbolic capacity: allocate a bounded backing array; exceeding the bound is an unwinding failure
+			if ub, ok := upperBound(cp); ok && ub <= 64 {
+				n = ub
+			} else {
+				n = e.maxSlice
+				over := Not(Ule(cp, BV(uint64(n), 64)))
+				e.unwindFail = Or(e.unwindFail, And(c.g, over))
+				e.unwindWhere["make-slice bound "+e.posOf(c)] = true
+				c.g = And(c.g, Not(over))
+			}
+		} else {
+			n = int(cp.val)
 		}
-		n := int(cp.val)
 		if n > 4096 {
 			inconclusive("MakeSlice too large: %d", n)
 		}
@@ -261,6 +272,11 @@ func (e *Engine) concretizeReg(c *Config, f *Frame, v ssa.Value) (*RefV, bool) {
 		n.g = And(c.g, a.G)
 		one := &RefV{Alts: []RefAlt{{TS.True, a.R}}}
 		nf := n.top()
+		nf.opTag += fmt.Sprintf("%p;", a.R)
+		if _, isNil := a.R.(NilRef); isNil {
+			nf.opTag += "nil;"
+		}
+		nf.opTagBlk, nf.opTagIdx = nf.blk.Index, nf.idx
 		if fv, ok := v.(*ssa.FreeVar); ok {
 			nb := append([]Value(nil), nf.bindings...)
 			for i, x := range nf.fn.FreeVars {
@@ -848,8 +864,12 @@ func (e *Engine) mapNext(c *Config, f *Frame, x *ssa.Next) Value {
 		if sel.IsFalse() {
 			continue
 		}
-		k = iteValue(sel, en.Key, k)
-		v = iteValue(sel, loadCell(en.Val), v)
+		if !isInvalidType(tt.At(1).Type()) {
+			k = iteValue(sel, en.Key, k)
+		}
+		if !isInvalidType(tt.At(2).Type()) {
+			v = iteValue(sel, loadCell(en.Val), v)
+		}
 		newPos = Ite(sel, BV(uint64(i+1), 16), newPos)
 		ok = Or(ok, sel)
 		taken = Or(taken, sel)
@@ -857,4 +877,40 @@ func (e *Engine) mapNext(c *Config, f *Frame, x *ssa.Next) Value {
 	newPos = Ite(ok, newPos, BV(uint64(len(m.Entries)), 16))
 	f.regs[x.Iter] = &IterV{M: m, Pos: newPos, MinPos: it.MinPos + 1}
 	return &StructV{F: []Value{ok, k, v}}
+}
+
+// upperBound derives a syntactic upper bound (unsigned) for small count-like terms.
+func upperBound(t *Term) (int, bool) {
+	switch t.op {
+	case OpConst:
+		if t.val > 1<<20 {
+			return 0, false
+		}
+		return int(t.val), true
+	case OpIte:
+		a, ok1 := upperBound(t.args[1])
+		b, ok2 := upperBound(t.args[2])
+		if !ok1 || !ok2 {
+			return 0, false
+		}
+		if a > b {
+			return a, true
+		}
+		return b, true
+	case OpAdd:
+		a, ok1 := upperBound(t.args[0])
+		b, ok2 := upperBound(t.args[1])
+		if !ok1 || !ok2 {
+			return 0, false
+		}
+		return a + b, true
+	case OpZext:
+		return upperBound(t.args[0])
+	}
+	return 0, false
+}
+
+func isInvalidType(t types.Type) bool {
+	b, ok := t.(*types.Basic)
+	return ok && b.Kind() == types.Invalid
 }
